@@ -23,7 +23,7 @@ Proof.
   - destruct (get env i) as [[| | | | |q|]|]; inversion H; subst. eexists; split; reflexivity.
 Qed.
 
-Definition lift_run (r : option (memory * mgr * list status)) (env : list value) :=
+Definition lift_run (r : option (memory * mgr * list status)) (env : list pyval) :=
   match r with Some (m, s, sts) => Some (m, s, env, sts) | None => None end.
 
 Lemma run_hist_compile ops : forall (m : memory) s env ts, build_all ts = Some env ->
